@@ -351,11 +351,11 @@ Qed.
 
 (* a script whose redo-ifchange fails ends its job with a non-zero status *)
 Lemma script_body_dep_failure rec envc t sc w w1 evs rc_deps :
-  s_deps sc <> [] ->
+  s_deps sc <> [] -> s_tol sc = false ->
   rec envc MIfChange (s_deps sc) w = Ret (w1, evs, rc_deps) -> rc_deps <> 0%Z ->
   script_body rec envc t sc w = Ret (w1, evs, rc_deps, None).
 Proof.
-  intros Hne Hrec Hrc. unfold script_body.
+  intros Hne Htol Hrec Hrc. unfold script_body. rewrite Htol.
   destruct (s_deps sc) as [|d ds] eqn:Ed; [congruence|]. rewrite Hrec.
   assert (Hn : negb (Z.eqb rc_deps 0) = true) by (apply negb_true_iff, Z.eqb_neq; exact Hrc).
   now rewrite Hn.
